@@ -13,6 +13,11 @@ LEVEL_TEXT = ('Kernel-checked theorems (Props/C12.v).  Unbounded (invariant proo
               'standard aggregation on every SYMMETRIC pattern returns ids in [-1, c), -1 exactly for the vertices without '
               'off-diagonal connection, every aggregate containing its root, every member within distance 2 of the root '
               'through members of the same aggregate, and its third pass opens no aggregate.  '
+              'One pairwise matching, on every graph with valid column indices and every weight vector: the kernel returns (its '
+              'multimap holds exactly the unaggregated nodes, each once, and shrinks every round), every node gets an id in 1..c and every '
+              'aggregate has one or two members (C12_pairwise_matching_pairs); m matchings composed as the Python driver composes them '
+              '(Aggregate.compose, tied to T = T @ T_temp by correspondence) give aggregates of at most 2^m nodes '
+              '(C12_pairwise_at_most_two_to_the_matchings).  '
               'Bounded, decided by vm_compute over the complete enumeration with the '
               'bound in each statement: for all symmetric graphs on <= 4 vertices (with and without stored diagonal) '
               'the models of standard, naive and pairwise aggregation return a partition: ids in range, no empty '
@@ -30,7 +35,7 @@ RULE = ('complete enumeration of symmetric graphs on 1..5 (6 thorough) vertices 
         'public standard/naive/pairwise/lloyd aggregation on random symmetric strength graphs (stars, cliques, isolated '
         'vertices, components) and nonsymmetric M-matrices -> partition oracle.  Non-trivial: graph has an edge.')
 TRUSTED = ['scipy.sparse.csgraph (oracle side only)', 'SciPy coo->csr conversion in the Python wrappers']
-PARTIAL = ['pairwise aggregation: theorem bounded to <= 4 vertices (naive, standard: unbounded)', 'Lloyd aggregation: oracle only']
+PARTIAL = ['pairwise aggregation: ids, sizes <= 2 per matching and <= 2^m after m matchings unbounded; roots (Cpts) bounded to <= 4 vertices + oracle', 'Lloyd aggregation: oracle only']
 HEADER = ('From Coq Require Import ZArith List.\nImport ListNotations.\n'
           'Require Import PV.Base.Ops PV.Model.GraphRun PV.Model.GraphRun2.\nOpen Scope Z_scope.\n')
 I32 = np.int32
@@ -145,6 +150,7 @@ def random_sym(rng, n, kind):
 def public(ctx):
     from pyamg.aggregation import aggregate as agg
     rng = ctx.sub('public')
+    comp_cases, comp_meta = [], []
     for it in range(50 if not ctx.thorough else 400):
         n = rng.choice([2, 4, 7, 10, 16, 25])
         kind = rng.choice(['star', 'clique', 'pairs', 'cycle', 'sparse', 'random', 'random'])
@@ -240,11 +246,36 @@ def public(ctx):
                 M = sp.csr_array(W + np.diag(-W.sum(1) + 0.5))
                 for matchings in (1, 2, 3):
                     cs = dict(base, nonsym=nonsym, matchings=matchings, dense=M.toarray().tolist())
+                    # the ids every matching of the driver produced are recorded (the kernel is wrapped for the call): the column
+                    # indices of the returned T must be the composition of these id maps as Aggregate.compose forms it (in Coq)
+                    rec_ = []
+                    core_ = agg.amg_core
+
+                    class _Spy:
+                        def __getattr__(self, nm, core_=core_, rec_=rec_):
+                            f_ = getattr(core_, nm)
+                            if nm != 'pairwise_aggregation':
+                                return f_
+
+                            def wrapped(nr, Ap_, Aj_, Ax_, Tj_, cp_):
+                                out = f_(nr, Ap_, Aj_, Ax_, Tj_, cp_)
+                                rec_.append([int(v) for v in Tj_])
+                                return out
+                            return wrapped
                     try:
-                        T, Cpts = agg.pairwise_aggregation(M, matchings=matchings, theta=rng.choice([0.0, 0.25]), norm='min')
+                        agg.amg_core = _Spy()
+                        try:
+                            T, Cpts = agg.pairwise_aggregation(M, matchings=matchings, theta=rng.choice([0.0, 0.25]), norm='min')
+                        finally:
+                            agg.amg_core = core_
                     except Exception as e:   # noqa
                         ctx.fail('pairwise_aggregation/raises', repr(e), cs)
                         continue
+                    if matchings == 2 and len(rec_) == 2 and len(comp_cases) < 400:
+                        Tc = sp.csr_array(T)
+                        if Tc.nnz == n and np.all(np.diff(Tc.indptr) == 1):
+                            comp_cases.append('(%s, %s, %s)' % (cq.zl(rec_[0]), cq.zl(rec_[1]), cq.zl([int(v) for v in Tc.indices])))
+                            comp_meta.append(cs)
                     partition_oracle(ctx, 'pairwise_aggregation', n, T, Cpts, cs, every=True, maxsize=2 ** matchings)
                     # the same problem with two unknowns per node (BSR input): the aggregates are those of the nodes, every
                     # unknown of a node goes to the column of its own component (identity blocks), no column is empty
@@ -268,6 +299,18 @@ def public(ctx):
                                 ctx.fail('pairwise_aggregation/bsr/not-identity-blocks', 'the two unknowns of a node do not go to the two columns of one aggregate', csb)
                             elif np.bincount(colof[::2] // 2).max() > 2 ** matchings:
                                 ctx.fail('pairwise_aggregation/bsr/aggregate-too-large', 'an aggregate has %d nodes after %d matchings' % (np.bincount(colof[::2] // 2).max(), matchings), csb)
+
+    # composition of two matchings: T.indices == compose(ids of matching 1, ids of matching 2) - 1, evaluated in Coq
+    if comp_cases:
+        bad, errs = cq.run_cases('c12c', HEADER, '(list Z * list Z * list Z)%type', 'chkCompose', comp_cases, shard=200)
+        for e in errs:
+            ctx.disagree('C12 compose model evaluation', None, e, None)
+        for i in bad[:10]:
+            ctx.disagree('pairwise_aggregation (two matchings) == Aggregate.compose', comp_meta[i], 'model differs', comp_cases[i])
+            ctx.fail('pairwise_aggregation/not-the-composition', 'T of two matchings is not the composition of the two id maps the kernel returned', comp_meta[i])
+        ctx.count('corr:pairwise-compose', len(comp_cases))
+        if 'T(two matchings).indices == Aggregate.compose(ids_1, ids_2) - 1 (exact, in Coq)' not in ctx.corr_relations:
+            ctx.corr_relations.append('T(two matchings).indices == Aggregate.compose(ids_1, ids_2) - 1 (exact, in Coq)')
 
 
 def search(ctx):
